@@ -61,6 +61,11 @@ void Tasks::prepare_stacks() {
     g_stacks_ready = true;
 }
 
+void Tasks::refill_stacks() {
+    prepare_stacks();
+    for (int i = 0; i < kMaxTasks; i++) memset(stack_addr(i), 0xA5, kStackSize);
+}
+
 void Tasks::trampoline() {
     Tasks *ts = g_tasks;
     if (__sanitizer_finish_switch_fiber)
